@@ -53,6 +53,7 @@ type run struct {
 	// executeClaim.  Deposits / executed withdrawals are counted ONCE PER EVENT, when the event leaves the pending store.
 	book      []*claimRec
 	contracts []common.Address // contracts[0] keeps what it receives; the others re-enter executeClaim
+	ibc       *ibcEnv          // group 5: IBC voucher alias (ibc_test.go)
 }
 
 // claimRec: one observed claim
@@ -327,6 +328,7 @@ func (r *run) userHeld() []map[int]*big.Int {
 			for k := 0; k < 5; k++ {
 				sum.Add(sum, w.Holding(g, k, acc))
 			}
+			sum.Add(sum, r.voucherHeld(i, g.G)) // the IBC voucher is one more representation
 			res[i][g.G] = sum
 		}
 	}
@@ -372,7 +374,7 @@ func (r *run) execLate(line string, f func() string, expect map[[2]int]int, dep,
 		}
 	}
 	r.syncExt()
-	obs := kind + " " + strings.TrimSpace(r.w.Dump()+r.extras()+r.claimExtras())
+	obs := kind + " " + strings.TrimSpace(r.w.Dump()+r.extras()+r.claimExtras()+r.ibcExtras())
 	r.out.Emit(line, obs)
 	r.out.Count("op:" + op + ":" + kind)
 	if kind == "err" {
@@ -399,6 +401,13 @@ func (r *run) execLate(line string, f func() string, expect map[[2]int]int, dep,
 		}
 		rhs := new(big.Int).Add(r.initial[g.G], r.deposited[g.G])
 		rhs.Sub(rhs, r.withdrawn[g.G])
+		if g.G == ibcGroup && r.ibc != nil { // vouchers held by holders count; packets received / sent are deposits / withdrawals
+			for i := 0; i < r.nHolders(); i++ {
+				lhs.Add(lhs, r.voucherHeld(i, g.G))
+			}
+			rhs.Add(rhs, r.ibc.in)
+			rhs.Sub(rhs, r.ibc.out)
+		}
 		if lhs.Cmp(rhs) != 0 {
 			r.out.Violate(fmt.Sprintf("conservation broken for %s token after %s: held+inFlight=%s, initial+deposits-withdrawals=%s", kindName(g.Kind), op, lhs, rhs))
 		}
@@ -441,6 +450,10 @@ func (r *run) execLate(line string, f func() string, expect map[[2]int]int, dep,
 			}
 		}
 	}
+	// monitor 1d: every base coin of a module-owned token is backed by an escrowed alias: supply(base) = the bridge
+	// denominations held by the chains' module accounts and by the erc20 module account (the older conversion system's
+	// escrow) + the IBC vouchers parked in the ibc-transfer module account; and that account keeps no base coin
+	r.backing(op)
 	// monitor 2: every holder's holdings change by exactly the stated delta
 	after := r.userHeld()
 	for i := 0; i < len(before); i++ {
@@ -1707,7 +1720,9 @@ func (r *run) randomExec() {
 func (r *run) randomOp() {
 	rng := r.rng
 	u := rng.Intn(bx.NUsers)
-	switch k := rng.Intn(100); {
+	switch k := rng.Intn(108); {
+	case k >= 100:
+		r.randomIbc()
 	case k < 18:
 		r.randomInbound()
 	case k < 31:
@@ -1828,7 +1843,7 @@ func TestC04(t *testing.T) {
 	seed := hx.Seed()
 	rng := rand.New(rand.NewSource(seed))
 	out := hx.NewOut()
-	defer out.Close("correspondence: full ledger + in-flight records after every op (messages, claim handlers, precompile calls) on 3 users x 3 chains x 5 token groups; monitors: conservation, stated per-holder deltas, withdrawability, ERC-20 books. non-trivial = distinct (op, outcome class)")
+	defer out.Close("correspondence: full ledger + in-flight records after every op (messages, claim handlers, precompile calls) on 3 users x 3 chains x 6 token groups (one with an IBC voucher alias on a real open channel); monitors: conservation, stated per-holder deltas, withdrawability, ERC-20 books. non-trivial = distinct (op, outcome class)")
 
 	nSeq := hx.N(30, 150)
 	nOps := hx.N(60, 150)
@@ -1840,7 +1855,8 @@ func TestC04(t *testing.T) {
 	for seq := 0; seq < nSeq; seq++ {
 		s := hx.NewSuite(t, 1)
 		w := bx.NewWorld(s)
-		r := &run{w: w, out: out, rng: rng, initial: w.Held(), deposited: map[int]*big.Int{}, withdrawn: map[int]*big.Int{}, extLast: map[[2]int]int{}, extSupply: map[[2]int]*big.Int{}}
+		ibc := addIbcGroup(w)
+		r := &run{w: w, out: out, rng: rng, ibc: ibc, initial: w.Held(), deposited: map[int]*big.Int{}, withdrawn: map[int]*big.Int{}, extLast: map[[2]int]int{}, extSupply: map[[2]int]*big.Int{}}
 		r.relayer = helpers.NewSigner(helpers.NewEthPrivKey()).AccAddress()
 		for c := range bx.Chains {
 			w.Keeper(c).SetOracleAddrByBridgerAddr(w.S.Ctx, r.relayer, helpers.NewSigner(helpers.NewEthPrivKey()).AccAddress())
@@ -1855,6 +1871,7 @@ func TestC04(t *testing.T) {
 		out.Reset(m0fx.String())
 		if seq == 0 {
 			r.scripted()
+			r.scriptedIbc()
 		} else if seq%2 == 1 {
 			r.batchScenario()
 		}
